@@ -147,7 +147,7 @@ class C02(Prop):
     def check(self, case):
         code, v = case['code'], case['version']
         g = grammar(v)
-        disturb(g, case_int(code, v))
+        disturb(g, case_int(code, v), code)
         t0 = time.time()
         m, fail = parse_guarded(g, code)
         if time.time() - t0 > SLOW_S and fail is None:
